@@ -195,6 +195,7 @@ func init() {
 			c.min("R-THRESHCONV", 7)
 			c.ruleVerifiedCommit()
 			c.min("R-VERIFIED", 5)
+			c.ruleDistinctVotes()
 			c.ruleAncestryGrandpaCommit()
 			c.min("R-ANCESTRYARGS", 2)
 		})
